@@ -32,7 +32,7 @@ theorem regs_p_self (r : Regs) : ({ r with p := r.p } : Regs) = r := by cases r;
 
 theorem fieldVal_ok {c0 : COpts} {t : GoType} {v : GoVal} {f : Field} {addr fpv : Bool} {P : Program} {sp : Nat} {pv : Bool} {lv : Nat} {tab : List GoType}
     (hlv : libLeft tab ≤ lv) (hC : Conf c0 t v = true) (hq : f.quoted = true → quotedOK t = true) (hns : (f.quoted && strLike t) = false)
-    (hv : CodeOK o co t v) (hw : ∀ e w, t = .ptr e → v = .ptr w → CodeOK o co e w)
+    (hv : CodeOK o co t v) (hw : ∀ e w, t = .ptr e → v = .ptr w → stringable e = true → CodeOK o co e w)
     (vpc : Nat) (r1 : Regs) (hg : r1.p.get = some v) (st : Stack) (b : Bytes) (hroom : st.length + needV t v ≤ maxStack)
     (hat : At P vpc (fieldValCode co (libK co lv) tab f t sp pv vpc)) :
     (∀ j, fieldSpec o addr f t v = .ok j → ∀ res,
@@ -77,7 +77,7 @@ theorem fieldVal_ok {c0 : COpts} {t : GoType} {v : GoVal} {f : Field} {addr fpv 
         simp only [quotedVal]
         have hB : At P (vpc + 3) c := At.right' hI.left (by simp)
         have hQ : At P (vpc + 3 + c.length) [Instr.byte 34] := At.right' hI (by simp <;> omega)
-        obtain ⟨h1, h2⟩ := hw e w rfl rfl lv tab hlv addr fpv P (vpc + 3) sp pv { r1 with p := .val w } st (b ++ [34]) (hc ▸ hB) rfl
+        obtain ⟨h1, h2⟩ := hw e w rfl rfl hst lv tab hlv addr fpv P (vpc + 3) sp pv { r1 with p := .val w } st (b ++ [34]) (hc ▸ hB) rfl
           (by simp only [needV] at hroom; omega)
         rw [hc] at h1
         have hql := quotedLeaf_eq (o := o) addr hst hns' hC
@@ -246,7 +246,7 @@ theorem field_ok {f : Field} {t : GoType} {v : GoVal} {vs : List GoVal} {i off :
     (hlv : libLeft tab ≤ lv) (hon : omitNullOK co f t v = true)
     (hC : Conf co t v = true) (hnz : (f.omitEmpty && negZero v) = false)
     (hq : f.quoted = true → quotedOK t = true) (hns : (f.quoted && strLike t) = false)
-    (hv : CodeOK o co t v) (hw : ∀ e w, t = .ptr e → v = .ptr w → CodeOK o co e w)
+    (hv : CodeOK o co t v) (hw : ∀ e w, t = .ptr e → v = .ptr w → stringable e = true → CodeOK o co e w)
     (fr : Regs) (hfr : fr.p.get = some (.st vs)) (hi : vs[i]? = some v) (s : Stack) (hroom : (fr :: s).length + needV t v ≤ maxStack)
     (pc : Nat) (c : Bool) (b : Bytes)
     (hat : At P pc (fieldCode co f t (fun pc' => code co (libK co lv) tab pc' sp pv t) (elemCode co (libK co lv) tab t sp pv) i off pc)) :
